@@ -32,6 +32,8 @@ _do_get:
   if self._inc_overflow():                        ge1 w v --ci--> i0     v < max
       try: return self._create_connection()       c0 --cr r--> idle (r fresh)
       except: self._dec_overflow(); raise         c0 --cf--> cfail --cd--> d0 ...
+                                                  c0 --ccancel--> cfail   (CancelledError inside the
+                                                   creation: bare except, so the slot is given back)
   else: return self._do_get()                     gr --cg--> g0
 _inc_overflow:
   if max == -1: self._overflow += 1; return True  i0 --rmw v (v+1)--> c0
@@ -77,7 +79,7 @@ deriving Repr, DecidableEq
 inductive Label
   | cg | rv (v : Int) | rmw (v w : Int) | wv (w : Int) | qg (b : Bool) | pop (r : Rec)
   | qe | to | ci | cd | la | lr | cr (r : Rec) | cf | cp (r : Rec) | put (r : Rec)
-  | qf | cl | qset | cancel
+  | qf | cl | qset | cancel | ccancel
 deriving Repr, DecidableEq
 
 /-- the state shared by all threads -/
@@ -156,6 +158,9 @@ def trans (c : Cfg) (s : Shared) (t : Nat) : Pc → Label → Option (Pc × Shar
     if r = s.nextId then some (.idle, { s with out := r :: s.out, nextId := s.nextId + 1 })
     else none
   | .c0, .cf => some (.cfail, s)
+  -- asyncio: CancelledError (a BaseException) lands at an await inside the creation of the
+  -- physical connection; the bare `except:` of _do_get must still run _dec_overflow()
+  | .c0, .ccancel => some (.cfail, s)
   | .cfail, .cd => some (.d0, s)
   -- _dec_overflow
   | .d0, .rmw v w =>
